@@ -356,7 +356,7 @@ def numeric_case(draw):
 # ---- runner interface ------------------------------------------------------------------------------
 
 def plan(tier, seed):
-    n = 500 if tier == "quick" else 12000
+    n = 1500 if tier == "quick" else 12000
     shards = [{"kind": "scalar", "seed": seed * 1000 + k, "n": n} for k in range(13)]
     shards += [{"kind": "numeric", "seed": seed * 1000 + 50 + k, "n": n * 4} for k in range(3)]
     return shards
